@@ -1,0 +1,66 @@
+//go:build verif
+
+package align
+
+// Contracts for property C04, third batch: (*align).Split (one block per partition).
+
+// rank of site n in partition p: the number of sites before n that carry code p (the column of site n in block p)
+//@ pure func c4c_rk(part *PartitionSet, p int, n int) int = (n <= 0 ? 0 : c4c_rk(part, p, n-1) + (psite(part, n-1) == p ? 1 : 0))
+
+// block b holds k columns (possibly none): well-formed, alphabet of a, the rows of a under their names, in order
+//@ pure func c4c_shape(a *align, b *align, k int) bool = wfa(b) && b.alphabet == old(a.alphabet) && nrows(b) == old(nrows(a)) && b.length == k && (forall r :: 0 <= r && r < old(nrows(a)) ==> rowname(b, r) == old(rowname(a, r)))
+// column rank(c) of block b is column c of a, for every site c < n of partition p
+//@ pure func c4c_cols(a *align, part *PartitionSet, b *align, p int, n int) bool = forall r, c :: 0 <= r && r < nrows(b) && 0 <= c && c < n && psite(part, c) == p ==> cell(b, r, c4c_rk(part, p, c)) == old(cell(a, r, c))
+// every object of block b was allocated before object x
+//@ pure func c4c_below(b *align, x *align) bool = b < x && b.seqmap < x && base(b.seqs) < x && (forall r :: 0 <= r && r < nrows(b) ==> row(b, r) < x && base(row(b, r).sequence) < x)
+//@ pure func c4c_alloc(b *align) bool = allocated(b) && allocated(b.seqmap) && allocated(b.seqs) && (forall r :: 0 <= r && r < nrows(b) ==> allocated(row(b, r)) && allocated(row(b, r).sequence))
+// the rows of block b and their storage were allocated after b itself, and no two rows share storage
+//@ pure func c4c_own(b *align) bool = allocated(b) && fresh(b) && fresh(b.seqmap) && allocated(b.seqmap) && fresh(b.seqs) && allocated(b.seqs) && owns(b) && (forall r :: 0 <= r && r < nrows(b) ==> row(b, r) > b && allocated(row(b, r)) && base(row(b, r).sequence) > b && allocated(row(b, r).sequence))
+//@ pure func c4c_rowsfresh(b *align) bool = forall r :: 0 <= r && r < nrows(b) ==> fresh(row(b, r)) && fresh(row(b, r).sequence)
+// block p is complete
+//@ pure func c4c_done(a *align, part *PartitionSet, b *align, p int) bool = b != nil && fresh(b) && c4c_shape(a, b, c4c_rk(part, p, part.length)) && c4c_cols(a, part, b, p, part.length) && c4c_rowsfresh(b)
+
+// Split: error iff the partition set declares fewer than 2 partitions or is over another length; otherwise one fresh alignment per
+// declared partition, block p holding exactly the sites with code p, in increasing order (site c is column rank_p(c)),
+// for every row of a, under the same names in the same order. a and part are not modified.
+//@ func (*align).Split
+//@   props C04 C19
+//@   requires wfa(a) && wfps(part)
+//@   ensures (err == nil) == (npart(part) >= 2 && part.length == a.length)
+//@   ensures err == nil ==> len(als) == npart(part)
+//@   ensures err == nil ==> forall p :: 0 <= p && p < npart(part) ==> c4c_done(a, part, als[p], p)
+//@   modifies nothing
+//@   loop 1
+//@     invariant err == nil && 0 <= pi && pi <= npart(part) && len(als) == npart(part) && len(alsimpl) == npart(part) && fresh(als) && fresh(alsimpl) && part.length == a.length && a.length >= 0
+//@     invariant forall pb :: 0 <= pb && pb < pi ==> als[pb] == alsimpl[pb] && c4c_alloc(alsimpl[pb])
+//@     invariant forall pb :: 0 <= pb && pb < pi ==> c4c_done(a, part, alsimpl[pb], pb)
+//@     decreases npart(part) - pi
+//@   loop 2
+//@     invariant 0 <= pi && pi < npart(part) && 0 <= pos && pos <= part.length && err == nil
+//@     invariant forall pb :: 0 <= pb && pb < pi ==> c4c_below(alsimpl[pb], alsimpl[pi]) && alsimpl[pb].seqmap != alsimpl[pi].seqmap && base(alsimpl[pb].seqs) != base(alsimpl[pi].seqs)
+//@     invariant forall pb :: 0 <= pb && pb < pi ==> c4c_done(a, part, alsimpl[pb], pb)
+//@     invariant alsimpl[pi] != nil && wf(alsimpl[pi]) && c4c_own(alsimpl[pi]) && alsimpl[pi].alphabet == old(a.alphabet) && alsimpl[pi].ignoreidentical == IGNORE_NONE
+//@     invariant firstpos == (c4c_rk(part, pi, pos) == 0) && 0 <= c4c_rk(part, pi, pos)
+//@     invariant firstpos ==> nrows(alsimpl[pi]) == 0 && alsimpl[pi].length == -1
+//@     invariant !firstpos ==> nrows(alsimpl[pi]) == old(nrows(a)) && alsimpl[pi].length == c4c_rk(part, pi, pos) && rect(alsimpl[pi]) && (forall r :: 0 <= r && r < old(nrows(a)) ==> rowname(alsimpl[pi], r) == old(rowname(a, r)))
+//@     invariant forall c :: 0 <= c && c < pos ==> 0 <= c4c_rk(part, pi, c) && c4c_rk(part, pi, c) <= c4c_rk(part, pi, pos) && (psite(part, c) == pi ==> c4c_rk(part, pi, c) < c4c_rk(part, pi, pos))
+//@     invariant c4c_cols(a, part, alsimpl[pi], pi, pos)
+//@     decreases part.length - pos
+//@   loop 3
+//@     invariant 0 <= pi && pi < npart(part) && 0 <= pos && pos < part.length && err == nil && psite(part, pos) == pi && 0 <= si && si <= old(nrows(a))
+//@     invariant forall pb :: 0 <= pb && pb < pi ==> c4c_below(alsimpl[pb], alsimpl[pi]) && alsimpl[pb].seqmap != alsimpl[pi].seqmap && base(alsimpl[pb].seqs) != base(alsimpl[pi].seqs)
+//@     invariant forall pb :: 0 <= pb && pb < pi ==> c4c_done(a, part, alsimpl[pb], pb)
+//@     invariant alsimpl[pi] != nil && wf(alsimpl[pi]) && c4c_own(alsimpl[pi]) && alsimpl[pi].alphabet == old(a.alphabet) && alsimpl[pi].ignoreidentical == IGNORE_NONE
+//@     invariant firstpos ==> nrows(alsimpl[pi]) == si && alsimpl[pi].length == (si == 0 ? -1 : 1) && (forall r :: 0 <= r && r < si ==> rowname(alsimpl[pi], r) == old(rowname(a, r)) && rowlen(alsimpl[pi], r) == 1 && cell(alsimpl[pi], r, 0) == old(cell(a, r, pos)))
+//@     invariant !firstpos ==> nrows(alsimpl[pi]) == old(nrows(a)) && alsimpl[pi].length == c4c_rk(part, pi, pos) && (forall r :: 0 <= r && r < old(nrows(a)) ==> rowname(alsimpl[pi], r) == old(rowname(a, r)) && rowlen(alsimpl[pi], r) == alsimpl[pi].length + (r < si ? 1 : 0))
+//@     invariant !firstpos ==> forall r :: 0 <= r && r < si ==> cell(alsimpl[pi], r, alsimpl[pi].length) == old(cell(a, r, pos))
+//@     invariant !firstpos ==> c4c_cols(a, part, alsimpl[pi], pi, pos)
+//@     decreases old(nrows(a)) - si
+// (loop 4 exists only with defect_1_fix.patch applied: a partition without site keeps the rows, with no column)
+//@   loop 4
+//@     invariant 0 <= pi && pi < npart(part) && err == nil && firstpos && c4c_rk(part, pi, part.length) == 0 && (forall c :: 0 <= c && c < part.length ==> psite(part, c) != pi)
+//@     invariant forall pb :: 0 <= pb && pb < pi ==> c4c_below(alsimpl[pb], alsimpl[pi]) && alsimpl[pb].seqmap != alsimpl[pi].seqmap && base(alsimpl[pb].seqs) != base(alsimpl[pi].seqs)
+//@     invariant forall pb :: 0 <= pb && pb < pi ==> c4c_done(a, part, alsimpl[pb], pb)
+//@     invariant alsimpl[pi] != nil && wf(alsimpl[pi]) && c4c_own(alsimpl[pi]) && alsimpl[pi].alphabet == old(a.alphabet) && alsimpl[pi].ignoreidentical == IGNORE_NONE
+//@     invariant nrows(alsimpl[pi]) == $i && alsimpl[pi].length == ($i == 0 ? -1 : 0) && (forall r :: 0 <= r && r < $i ==> rowname(alsimpl[pi], r) == old(rowname(a, r)) && rowlen(alsimpl[pi], r) == 0)
+//@     decreases old(nrows(a)) - $i
